@@ -681,6 +681,13 @@ pub fn record_directed(out: &mut TraceOut, thorough: bool) -> Value {
         vec![8, 0xB0, 0xFF, 7, 0x0C, 8, 0xFF, 0x1C, 0xFF, 0xFF, 0xFF, 0xFF, 0xFF, 0xFF, 0xFF, 0xFF],
         vec![4, 0x99, 0xFF, 0xFF, 9, 3, 0, 2, 0, 0xFF, 0xFF, 0xFF, 0xFF, 0xFF, 0xFF, 0xFF],
         vec![4, 0x20, 1, 6, 7, 30, 30, 30, 0, 8, 9, 9, 9, 9, 9, 9],                          // known id, other bytes altered
+        // heights that need 3, 5, 6, 7, 9 bytes per column (strides that are not powers of two)
+        vec![4, 0x99, 0, 0, 24, 28, 0, 0, 0, 8, 0, 0, 0, 0, 0, 0],                           // 28 x 24
+        vec![4, 0x99, 0, 0, 40, 30, 0, 0, 0, 8, 0, 0, 0, 0, 0, 0],                           // 30 x 40
+        vec![4, 0x99, 0, 0, 17, 10, 9, 0, 0, 8, 0, 0, 0, 0, 0, 0],                           // 19 x 17
+        vec![8, 0xB0, 0, 7, 0x0C, 47, 0, 21, 3, 0, 7, 0, 0, 0, 0, 0],                        // Horizon 21 x 47
+        vec![8, 0xB0, 0, 7, 0x0C, 50, 0, 12, 1, 2, 4, 4, 0, 0, 0, 0],                        // Horizon 12 x 50
+        vec![8, 0xB0, 0, 7, 0x0C, 65, 0, 9, 1, 0, 9, 0, 0, 0, 0, 0],                         // Horizon 9 x 65
         // degenerate sizes: one column, one row, one pixel; no columns, no rows (nothing can be stored)
         vec![4, 0x99, 0, 0, 8, 1, 0, 0, 0, 8, 0, 0, 0, 0, 0, 0],                             // 1 x 8
         vec![4, 0x99, 0, 0, 1, 8, 0, 0, 0, 8, 0, 0, 0, 0, 0, 0],                             // 8 x 1
